@@ -59,6 +59,9 @@ CLAIMED = {
  "C18": ("exploration", "property-based testing against the generator's own record (multiset equality, exact cash conservation) plus a layout metamorphic relation",
          "Generated well-formed Questrade exports (all activity kinds, FXT pairs, accounts, currencies, alias symbol) in generated column layouts (permuted, extra, blank-headed, numeric cells) go through sheet_to_txs in memory and, for a sample, through a real .xlsx and run_with_args with its options; emitted rows, the signed USD.FX total, layout independence, ordering and acceptance by acb are checked.",
          "Numeric cells use the same f64->Decimal conversion on both sides; ledger-level acceptance of USD.FX is not claimed.", "DESIGN.md section 4 C18"),
+ "C19": ("exploration", "scenario-first property-based testing with a validity-predicate oracle (exact partition search) over the output CSV",
+         "Generated sets of RSU / ESPP / option-exercise confirmations and trade confirmations (pre- and post-2023 layouts, benefits close together, equal share counts, extra manual sales, shuffled file names) are rendered as .txt and run through run_with_args; the output must contain one purchase per benefit, every manual row must equal a distinct trade, and the remaining trades must be partitionable into one valid group per sell-to-cover row.",
+         "Layouts are those of the repository's fixtures; the tool's own 'cannot match / cannot decide' errors are accepted outcomes.", "DESIGN.md section 4 C19"),
 }
 NOT_YET = "check not built yet in this round (planned: see DESIGN.md section 4)"
 
